@@ -34,6 +34,8 @@ def check(run):
     writers = sched.doers_writers(run)
     for (cfq, meth), sites in sorted(writers.items()):
         for f, node in sites:
+            if ix.expanded_helper(f):
+                continue        # a new helper: its body was expanded into (and is judged at) its callers
             ok = meth in ALLOWED_WRITERS
             run.ob("C06.R3", "%s.%s:writes-doers:%s" % (cfq, meth, norm(node)), ok, run.site(f, node),
                    "" if ok else "the doer list is mutated outside __init__/do/ado/extend/remove: `%s`" % norm(node))
